@@ -186,7 +186,11 @@ def run_case(case):
         if uexp is not None:
             # penalties q * 2**(-uexp): exact floats, arbitrarily small or large; TLC works on the integers q
             unit = 2.0 ** uexp
-        if H:
+        if case.get("lex") is not None:
+            lib, tlc = core.lex_vectors(case["lex"])
+            ss = SS(lib)
+            rec["sch"] = [tlc[0], tlc[1], 1]
+        elif H:
             ss = SS([[float(H * b + b2) for b, b2 in zip(B, B2)], [float(H * t + t2) for t, t2 in zip(T, T2)]])
         else:
             ss = SS(core.scheme_float(B, T, unit))
